@@ -133,6 +133,8 @@ def main(tier, seed):
 
     def regen():
         rc, out = sh([PY, str(VERIF / "harness" / "py2coq_codec.py"), str(REPO / "tinyflux" / "point.py"), str(COQ / "gen" / "CodecGen.v")], timeout=60)
+        rc2, out2 = sh([PY, str(VERIF / "harness" / "py2coq_decode.py"), str(REPO / "tinyflux" / "point.py"), str(COQ / "gen" / "DecodeGen.v")], timeout=60)
+        out = out + out2
         refused.extend(l for l in out.splitlines() if l.startswith("REFUSED"))
     b = ck.build_proofs("Prop_C05", pre=regen, extra_targets=["Run.vo", "Text.vo"])
     n_codec = 1200 if tier == "quick" else 30000
